@@ -211,6 +211,7 @@ pub fn run_c01(a: &Args) {
         let mut ev_out: Vec<String> = vec![];
         let mut ops_done: Vec<Op> = vec![];
         let mut failed_classes: Vec<String> = vec![];
+        let mut redo_unfaithful = false;
         st.histories += 1;
         for _ in 0..len {
             let op = script.pop_front().unwrap_or_else(|| gen_op(&mut rng, &ctx_of(&m), false));
@@ -262,11 +263,19 @@ pub fn run_c01(a: &Args) {
             // redo, so that the history goes on from the state after the operation
             let _ = guarded(|| m.redo());
             let s1b = snap(&m);
+            if s1b != s1 {
+                // an unfaithful redo is property C02's finding (its own check reports it); for C01 the
+                // hypothesis of the machine theorems no longer holds from here on, so the history ends
+                // before this event and is not walked back
+                redo_unfaithful = true;
+                *st.kinds.entry(format!("(history ended: redo of {kc} unfaithful, see C02)")).or_insert(0) += 1;
+                break;
+            }
             ev_in.push("r".into());
             ev_out.push(format!("{}:{}:{}", it.id(&s1b), b(m.can_undo()), b(m.can_redo())));
         }
         // walk back to the beginning
-        if failed_classes.is_empty() {
+        if failed_classes.is_empty() && !redo_unfaithful {
             let mut guard = 0;
             while m.can_undo() && guard < 500 {
                 if guarded(|| m.undo()).is_err() { break; }
